@@ -3,7 +3,7 @@
    "infidelity = - tr K / d^2" on the traceless branch.                                        *)
 From Coq Require Import ZArith Reals List Lra Lia Bool.
 From FF Require Import Base.Ops Inst.RInst Base.RAlg Base.FMat Model.Numeric Model.Decay Model.Cumulant
-     Proofs.Trapz Proofs.Decay Proofs.TraceId.
+     Proofs.Trapz Proofs.Decay Proofs.DecayPrefix Proofs.TraceId.
 Import ListNotations.
 Local Open Scope R_scope.
 
@@ -54,21 +54,22 @@ Qed.
 Lemma pauli_traces k : (1 <= k < 4)%nat -> ftr 2 (pauli_Cb k) = 0c.
 Proof. intros Hk. destruct k as [|[|[|[|k]]]]; try lia; apply c_eq; unfold ftr, pauli_Cb, toF, mget, nthm; csimp; ring. Qed.
 
-Theorem traceless_branch_refuted :
+(* the pre-fix traceless branch (before 2891db3) *)
+Theorem traceless_branch_prefix_refuted :
   exists (basis : list MatR) (Bm : A3r) (sp : spectrumR) (omega : list R),
     let d := 2%nat in let n := length basis in let Cb := fun k => toF (nthm basis k) in
     basis_herm d n Cb /\ basis_orthonormal d n Cb /\ basis_complete d n Cb /\
     (forall k, (1 <= k < n)%nat -> ftr d (Cb k) = 0c) /\
     let G := rmbuild n n (fun k l => Gamma Bm Bm [0%nat] sp 2 omega 0 0 k l) in
     let Tr := a4get RO (four_traces_arr RO d (pair_products RO d basis) n) in
-    nth 0 (infidelity_total RO d true 1 n 2 Bm basis [0%nat] sp omega) 0 <>
+    nth 0 (infidelity_total_prefix d true 1 n 2 Bm basis [0%nat] sp omega) 0 <>
     - sumn' n (fun m => cumulant_general_fn RO n Tr false G G m m) / (INR d * INR d).
 Proof.
   exists pauli_basis, Bw, spw, omw. cbv zeta.
   split. exact pauli_herm. split. exact pauli_orthonormal. split. exact pauli_complete.
   split. exact pauli_traces.
   change (length pauli_basis) with 4%nat.
-  pose proof (infidelity_traceless_excess 2 pauli_basis ltac:(lia) pauli_herm pauli_orthonormal pauli_complete
+  pose proof (infidelity_traceless_prefix_excess 2 pauli_basis ltac:(lia) pauli_herm pauli_orthonormal pauli_complete
                 1 4 2 Bw [0%nat] spw omw eq_refl) as H.
   assert (Hidx : idx_ok 1 [0%nat]) by (intros i Hi; simpl in Hi; destruct i; unfold sel; simpl; lia).
   specialize (H Hidx eq_refl 0%nat 0%nat
